@@ -197,6 +197,7 @@ def run_case(case):
         # a second leaf boundary within 4 eps makes the step test ambiguous
         leaves = np.abs(np.stack(node.leaf_phis(X, envr), 0))
         smooth &= (leaves <= 8 * eps).sum(0) <= 1
+        smooth &= node.vertex_dist(X, envr) > 6 * eps          # corners of polygonal leaves (averaged / one-sided normals)
         good = fin & ~badlen
         judge = good & smooth
         res["counters"]["rows_skipped_near_corner"] = res["counters"].get("rows_skipped_near_corner", 0) + int((good & ~smooth).sum())
@@ -283,7 +284,7 @@ def _single_sides_and_evaluated(case, D, node, Pp, env, k, info, res, mech0, rng
         eps = 2e-3 * L
         leaves = np.abs(np.stack(node.leaf_phis(X, envr), 0))
         g, gn = _grad(node, X, envr, eps / 8)
-        smooth = okb & ~amb & np.isfinite(nr).all(1) & ((leaves <= 4 * eps).sum(0) <= 1) & (gn > 0.5)
+        smooth = okb & ~amb & np.isfinite(nr).all(1) & ((leaves <= 8 * eps).sum(0) <= 1) & (gn > 0.5) & (node.vertex_dist(X, envr) > 6 * eps)
         for t in _tangents(g):
             for sgn in (1, -1):
                 smooth &= np.abs(node.phi(X + sgn * 4 * eps * t, envr)) <= 0.5 * eps
